@@ -132,6 +132,9 @@ func rangeInstCase(c *Case, lean *LeanDriver) Verdict {
 		}
 	}
 	v.NonTriv = nonTrivial(rr)
+	if plan, err := c.Preprocess(); err == nil && movingParamUnderWrapper(plan) {
+		v.Features = append(v.Features, "si-agg-moving-param")
+	}
 	// assemble the instants into a matrix
 	type key = string
 	pts := map[key][]Pt{}
